@@ -261,6 +261,11 @@ class SrcHarness:
             self.rec(ctx, uid + "/action/no-exception-escapes", False, detail=f"{e.value!r}")
 
     def on_loop_drain(self, it, st, env, key, lc, iterable=None):
+        import ast as _ast
+
+        if not isinstance(st, _ast.While):
+            # the loop contract is stated for `while <test>: ... next(iterator) ...`; another loop shape is drift (bounded stand-in)
+            raise Unsupported(f"from_iterable_'s emission loop is a {type(st).__name__} loop: the loop contract does not match (drift)")
         ctx = it.ctx
         w = self.w
         L = self.loop
@@ -635,7 +640,7 @@ def run_unit(desc):
     if h.unsupported or desc.get("tier") == "thorough":
         from .report import native, VERIF, REPLAY_DIR
         r, err = native([os.path.join(VERIF, "rxvc", "srcrun.py"), "replay", "-", "C37",
-                         json.dumps({"replay_path": os.path.join(REPLAY_DIR, "C37-standin.py"), "prop": "C37",
+                         json.dumps({"replay_path": os.path.join(REPLAY_DIR, f"{desc['prop']}-standin-sources.py"), "prop": desc["prop"],
                                      "oid": rep["unit"] + "/bounded-standin"})], timeout=200)
         st = r if r is not None else {"found": [], "error": err, "cases": 0}
         rep["bounded"].append({"function": rep["unit"], "bound": "argument grids of srcrun.py on a VirtualTimeScheduler (ranges over {-2..3} with steps, iterables "
